@@ -13,10 +13,12 @@ Property theorems only.  Two kernels of /repo are covered:
   * plus the page arithmetic and the scroll / head processors over every batching.
 
 Found false of the code as written (counterexample theorem + partial statement + known finding):
-  - `less` is not a strict weak order: AlmostEquals' tolerance makes "equal" non-transitive
-    (less_strict_weak_order_counterexample), and so does NaN (less_strict_weak_order_nan_counterexample);
   - the OLDEST-first mode of the scheduler (recentLast; selected by no query path in this version) can leave
     records in unsentRRCs for ever (fetch_reaches_eof_counterexample).
+Found false and REPAIRED in /repo (fix: commits of C05): `less` was not a strict weak order — compareFloat used
+AlmostEquals' tolerance as equality (non-transitive "equal"), NaN was "equal" to every number and ±Inf was not
+equal to itself.  With the exact compareFloat the statement is proved at full strength
+(less_strict_weak_order); the old comparator is kept as `lessOld` for the two counterexample theorems.
 -/
 import SigModel.Model.Sched
 import SigModel.Model.SortCmp
@@ -174,68 +176,67 @@ def IsStrictWeakOrder (n : Nat) (lt : List Val → List Val → Bool) : Prop :=
     (lt a b = true → lt b c = true → lt a c = true) ∧
     (lt a b = false → lt b a = false → lt b c = false → lt c b = false → lt a c = false ∧ lt c a = false)
 
-/-- C05.4 the full statement: `sortProcessor.less` is a strict weak order (what sort.Slice, the top-N heap and
-the merge of sorted batches need for their result to be sorted). -/
-def LessStrictWeakOrder (rnd : Rat → Rat) : Prop :=
-  ∀ ks : List (Bool × SortOp), IsStrictWeakOrder ks.length (less rnd ks)
+/-- C05.4 `less_strict_weak_order` (full strength): for EVERY key list (numeric, string, auto or any other
+option; ascending/descending; any number of keys), every rounding function and ALL values — numbers closer than
+any tolerance, integers beyond 2^53, ±Inf, NaN, numeric strings, empty strings, bool, null — `sortProcessor.less`
+is a strict weak order on the records that carry one value per key: irreflexive, transitive, and "neither is
+less" is transitive.  This is what sort.Slice, the top-N heap and the merge of sorted batches need for their
+result to be sorted. -/
+theorem less_strict_weak_order (rnd : Rat → Rat) (ks : List (Bool × SortOp)) :
+    IsStrictWeakOrder ks.length (less rnd ks) := by
+  intro a b c ha hb hc
+  exact Lemmas.C05.less_swo rnd ks a b c ha hb hc
+
+/-- adjacent results of a sorted output are never out of order: if `less` put a before b it did not also put b
+before a (asymmetry, a consequence of the above spelled out) -/
+theorem less_asymm (rnd : Rat → Rat) (ks : List (Bool × SortOp)) (a b : List Val)
+    (ha : a.length = ks.length) (hb : b.length = ks.length) (h : less rnd ks a b = true) :
+    less rnd ks b a = false := by
+  cases hba : less rnd ks b a with
+  | false => rfl
+  | true =>
+    have s := less_strict_weak_order rnd ks a b a ha hb ha
+    have := s.2.1 h hba
+    rw [s.1] at this
+    cases this
+
+/-- values closer than the old tolerance are now told apart, NaN comes after every number and equals NaN,
++Inf equals +Inf (the three classes that used to break the order) -/
+example : compareValues roundF64 (.float (.fin 1) []) (.float (.fin (1 + 1 / 16384)) []) true .num = .less ∧
+    compareValues roundF64 (.int 7) (.str (asciiBytes "nan") (some .nan)) true .num = .less ∧
+    compareValues roundF64 (.str (asciiBytes "nan") (some .nan)) (.int 7) true .num = .greater ∧
+    compareValues roundF64 (.float .nan []) (.str (asciiBytes "NaN") (some .nan)) false .num = .equal ∧
+    compareValues roundF64 (.float .pinf []) (.str (asciiBytes "inf") (some .pinf)) false .num = .equal := by
+  decide +kernel
 
 def fl (q : Rat) : Val := .float (.fin q) []
 
-/-- FALSE of the code as written: compareFloat calls AlmostEquals (|a − b| < 0.0001), so "equal" is not
-transitive.  Witness (all three values and their differences are exact binary64 numbers):
-1 ~ 1 + 2⁻¹⁴ ~ 1 + 2⁻¹³ (neighbours differ by 0.000061) but 1 < 1 + 2⁻¹³ (difference 0.000122). -/
-theorem less_strict_weak_order_counterexample : ¬ LessStrictWeakOrder roundF64 := by
+/-- HISTORICAL, about the comparator before the fix (`lessOld`, compareFloat with AlmostEquals): it was NOT a
+strict weak order.  Witness (all three values and their differences are exact binary64 numbers):
+1 ~ 1 + 2⁻¹⁴ ~ 1 + 2⁻¹³ (neighbours differ by 0.000061 < 0.0001) but 1 < 1 + 2⁻¹³ (difference 0.000122). -/
+theorem lessOld_not_strict_weak_order_tolerance :
+    ¬ ∀ ks : List (Bool × SortOp), IsStrictWeakOrder ks.length (lessOld roundF64 ks) := by
   intro h
   have := (h [(true, .num)] [fl 1] [fl (1 + 1 / 16384)] [fl (1 + 1 / 8192)] rfl rfl rfl).2.2
     (by decide +kernel) (by decide +kernel) (by decide +kernel) (by decide +kernel)
-  have h2 : less roundF64 [(true, .num)] [fl 1] [fl (1 + 1 / 8192)] = true := by decide +kernel
+  have h2 : lessOld roundF64 [(true, .num)] [fl 1] [fl (1 + 1 / 8192)] = true := by decide +kernel
   rw [this.1] at h2
   cases h2
 
-/-- A second failing class: the strings "nan"/"NaN" rank as numbers (MightBeFloat + ParseFloat) and NaN
-compares GREATER both ways, so it is "equal" to everything: 1 ~ NaN ~ 2 but 1 < 2. -/
-theorem less_strict_weak_order_nan_counterexample : ¬ LessStrictWeakOrder roundF64 := by
+/-- HISTORICAL: the strings "nan"/"NaN" rank as numbers and NaN compared GREATER both ways, so it was "equal"
+to everything: 1 ~ NaN ~ 2 but 1 < 2. -/
+theorem lessOld_not_strict_weak_order_nan :
+    ¬ ∀ ks : List (Bool × SortOp), IsStrictWeakOrder ks.length (lessOld roundF64 ks) := by
   intro h
   have := (h [(true, .num)] [.int 1] [.str (asciiBytes "nan") (some .nan)] [.int 2] rfl rfl rfl).2.2
     (by decide +kernel) (by decide +kernel) (by decide +kernel) (by decide +kernel)
-  have h2 : less roundF64 [(true, .num)] [.int 1] [.int 2] = true := by decide +kernel
+  have h2 : lessOld roundF64 [(true, .num)] [.int 1] [.int 2] = true := by decide +kernel
   rw [this.1] at h2
   cases h2
 
-/-- the guard: at every key position, every numerically ranked value is finite and two numerically ranked
-values that AlmostEquals identifies are equal (i.e. distinct numeric values differ by at least the tolerance) -/
-def Separated (rnd : Rat → Rat) (ks : List (Bool × SortOp)) (recs : List (List Val)) : Bool :=
-  recs.all (fun x => recs.all (fun y => Lemmas.C05.posSepB rnd ks x y))
-
-/-- C05.4 (partial): on every set of records that satisfies the guard, for every key list (numeric, string,
-auto; ascending/descending; multi-key) and every rounding function with `rnd 0 = 0 < rnd 0.0001`, `less` IS a
-strict weak order. -/
-theorem less_strict_weak_order_partial (rnd : Rat → Rat) (hr : rnd 0 = 0 ∧ 0 < rnd tolerance)
-    (ks : List (Bool × SortOp)) (a b c : List Val)
-    (ha : a.length = ks.length) (hb : b.length = ks.length) (hc : c.length = ks.length)
-    (hg : Separated rnd ks [a, b, c] = true) :
-    less rnd ks a a = false ∧
-    (less rnd ks a b = true → less rnd ks b c = true → less rnd ks a c = true) ∧
-    (less rnd ks a b = false → less rnd ks b a = false → less rnd ks b c = false → less rnd ks c b = false →
-      less rnd ks a c = false ∧ less rnd ks c a = false) := by
-  apply Lemmas.C05.less_swo rnd hr ks a b c ha hb hc
-  intro x y hx hy
-  apply Lemmas.C05.posSepB_spec
-  unfold Separated at hg
-  simp only [List.all_cons, List.all_nil, Bool.and_true, Bool.and_eq_true] at hg
-  rcases hx with rfl | rfl | rfl <;> rcases hy with rfl | rfl | rfl <;> simp [hg]
-
-/-- the rounding the Oracle uses satisfies the assumption of the partial statement -/
-theorem roundF64_ok : roundF64 0 = 0 ∧ 0 < roundF64 tolerance := by decide +kernel
-
-/-- the guard is satisfiable, with mixed ranks, several keys and numbers one tolerance apart -/
-example : Separated roundF64 [(true, .num), (false, .str)]
-    [[fl 1, .int 7], [fl (1 + 1 / 8192), .str [97] none], [.str (asciiBytes "10") (some (.fin 10)), .null],
-     [.null, .bool true], [.int 1, .int 7]] = true := by decide +kernel
-
-/-- … and the tolerance triple is excluded by it -/
-example : Separated roundF64 [(true, .num)] [[fl 1], [fl (1 + 1 / 16384)], [fl (1 + 1 / 8192)]] = false := by
-  decide +kernel
+/-- HISTORICAL: +Inf was not equal to itself; descending, `lessOld a a` was true. -/
+theorem lessOld_not_irreflexive_inf :
+    lessOld roundF64 [(false, .num)] [.float .pinf []] [.float .pinf []] = true := by decide +kernel
 
 /-! ## 3. pages, scroll, head -/
 
